@@ -48,6 +48,31 @@ RNG_CARRIERS = ("as_mut", "unwrap", "expect", "ok_or", "as_deref_mut", "map", "t
 PER_ELEMENT_ADAPTORS = ("map", "for_each", "try_for_each", "filter_map", "flat_map", "try_fold", "fold", "scan", "map_while")
 
 
+def per_element_body(f, g, adt, bid, depth, seen):
+    """the body runs once per element of some iteration: it is called from inside a loop, it is the closure of an
+    iterator adaptor, or everything that calls it is such a body."""
+    if bid in seen or depth > 4:
+        return False
+    seen.add(bid)
+    bb = f.bodies[bid]
+    callers = []
+    for cb in g.scope:
+        pb = f.bodies[cb]
+        for ci, ct in pb.calls():
+            if bid in f.call_targets(ct, adt) or ct.get("self_closure") == bid:
+                if ci in RNG.cyclic_blocks(pb):
+                    return True
+                callers.append(cb)
+        if bb.kind == "Closure":
+            made = {st["dst"]["l"] for blk in pb.blocks for st in blk["stmts"]
+                    if st["rv"].get("k") == "agg" and st["rv"].get("closure") == bid and not st["dst"]["p"]}
+            if made and any((ct.get("callee") or "").rsplit("::", 1)[-1] in PER_ELEMENT_ADAPTORS and
+                            any(a["k"] in ("copy", "move") and a["pl"]["l"] in made for a in ct["args"][1:])
+                            for _, ct in pb.calls()):
+                return True
+    return bool(callers) and all(per_element_body(f, g, adt, cb, depth + 1, seen) for cb in set(callers))
+
+
 def anchors(f):
     out = []
     S = T.SCHEMES
@@ -295,18 +320,7 @@ def run(rep, ctx, tier):
                             if st["rv"].get("k") == "agg" and st["rv"].get("adt") == PROOF]
                     if not lits:
                         continue
-                    in_loop = any(ci in RNG.cyclic_blocks(f.bodies[cb]) for cb in g.scope for ci, ct in f.bodies[cb].calls()
-                                  if bid in f.call_targets(ct, adt))
-                    if bb.kind == "Closure" and not in_loop:
-                        # the body of `iter.map(|..| ..)` / `for_each`: the adaptor runs it once per element
-                        for cb in g.scope:
-                            pb = f.bodies[cb]
-                            made = {st["dst"]["l"] for blk in pb.blocks for st in blk["stmts"]
-                                    if st["rv"].get("k") == "agg" and st["rv"].get("closure") == bid and not st["dst"]["p"]}
-                            if made and any((ct.get("callee") or "").rsplit("::", 1)[-1] in PER_ELEMENT_ADAPTORS and
-                                            any(a["k"] in ("copy", "move") and a["pl"]["l"] in made for a in ct["args"][1:])
-                                            for _, ct in pb.calls()):
-                                in_loop = True
+                    in_loop = per_element_body(f, g, adt, bid, 0, set())
                     if in_loop:
                         for i, rv in lits:
                             per_item.append((bid, i, set(range(len(bb.blocks))),
